@@ -24,6 +24,7 @@ EXPLANATION = (
   ' (DEF-local) no local of the WebVTT reader is read unassigned; (FIN-timeexpr / FIN-pct) timestamp and percentage parsing evaluated on a grid equal the WebVTT grammar; (INV-ruby) the cursor is a Ruby only while both ruby containers are set, so markup inside ruby is routed through rb / rt;'
   ' (ORD-br / PAIR-span) as for SRT; (ORD-settings / TAB-settings / TAB-region-key) cue settings are complete before a region is looked up, every setting has a branch, and regions are shared only on equal settings;'
   ' (TYPESTATE-buffer / TYPESTATE-flush) the tokenizer leaves no state with a non-empty buffer unflushed at end of input or at a state change;'
+  ' (FIN-linenum) a line number n >= 0 (0 included) is the offset 100 n / N from the near edge and n < 0 the offset 100 + 100 n / N, evaluated for seven line numbers in both writing directions;'
 )
 RULE_TEXT = "per call site / function / enum / printed sample"
 UNDECIDED = ["cue-setting geometry (line numbers <= 0, position with size)", "tag scoping", "region sharing for equal settings"]
@@ -252,6 +253,44 @@ def check_percentages(ctx):
   ctx.check(not wrong, "FIN-pct", f"{f.qualname}|0% .. 100% inclusive", ctx.where(f.module, f.node), "6 values", "; ".join(wrong) + " - cue settings such as line:100%,end (which the writer prints) are ignored")
 
 
+def check_line_numbers(ctx):
+  """FIN-linenum: a `line` setting given as a line number n is the offset of that line from the top (or the
+  start edge, in vertical text) when n >= 0 - line 0 is the first line - and counts from the far edge when
+  n < 0 (line -1 is the last line): 100 * n / N and 100 + 100 * n / N for N lines.  Every assignment computed
+  from the parsed line number is evaluated for n in -N .. N."""
+  from fractions import Fraction as F
+  from ..consteval import ConstEval, NotConst
+  ix = ctx.ix
+  f = ix.func("ttconv.vtt.reader:_get_or_make_region")
+  ctx.unit(f.module)
+  nvars = {st.targets[0].id for st in own_nodes(f.node) if isinstance(st, ast.Assign) and len(st.targets) == 1 and isinstance(st.targets[0], ast.Name)
+           and isinstance(st.value, ast.Call) and unparse(st.value.func).endswith("parse_vtt_int")}
+  if len(nvars) != 1:
+    raise AnalysisError(f"{f.qualname}: the parsed line number was not found")
+  nv = next(iter(nvars))
+  sites = [st for st in own_nodes(f.node) if isinstance(st, ast.Assign) and len(st.targets) == 1 and isinstance(st.targets[0], ast.Name)
+           and st.targets[0].id != nv and any(isinstance(x, ast.Name) and x.id == nv for x in ast.walk(st.value))]
+  ctx.floor("FIN-linenum", "offsets computed from a line number", len(sites), 2)
+  ce = ConstEval(ix, symbolic_ok=False)
+  for st in sites:
+    totals = [ce.try_ev(f.module, x, None, default=None) for x in ast.walk(st.value) if isinstance(x, ast.Name) and x.id.startswith("_DEFAULT_")]
+    totals = [t for t in totals if isinstance(t, int)]
+    if len(set(totals)) != 1:
+      raise AnalysisError(f"{f.qualname}: `{short(st.value, 60)}` does not divide by one line count")
+    N = totals[0]
+    wrong = []
+    for n in (-N, -3, -1, 0, 1, 5, N - 1):
+      try:
+        got = ce.ev(f.module, st.value, None, {nv: n})
+      except NotConst as e:
+        raise AnalysisError(f"{f.qualname}: `{short(st.value, 60)}` leaves the evaluable subset ({e})")
+      want = F(100 * n, N) if n >= 0 else 100 + F(100 * n, N)
+      if abs(F(got) - want) > F(1, 10**9):
+        wrong.append(f"line {n} of {N}: offset {float(got):.2f}%, must be {float(want):.2f}%")
+    ctx.check(not wrong, "FIN-linenum", f"{f.qualname}|{short(st.value, 70)}", ctx.where(f.module, st), f"7 line numbers of {N} agree",
+              "; ".join(wrong[:3]) + ": the region starts outside the root container or has a negative extent")
+
+
 def run(ctx):
   ix = ctx.ix
   nul.IMPLICATIONS.clear()
@@ -308,4 +347,5 @@ def run(ctx):
   nfl = shape.check_state_flush(ctx, ix.func("ttconv.vtt.tokenizer:CueTextTokenizer"), continuation={("start_tag_annot", "annot_cref"), ("annot_cref", "start_tag_annot")})
   ctx.note(f"TYPESTATE-flush: {nfl} leaving branches of buffer-filling states")
   common.check_item_handlers(ctx, ["ttconv.vtt.reader", "ttconv.vtt.tokenizer", "ttconv.utils"])
+  check_line_numbers(ctx)
   common.check_history_independence(ctx, ["ttconv.vtt.reader", "ttconv.vtt.tokenizer", "ttconv.utils"])
